@@ -347,3 +347,20 @@ Proof.
   - subst. repeat split.
   - contradiction.
 Qed.
+
+(* the size cap keeps a prefix of the stream *)
+Lemma size_cut_prefix target stream : forall acc, exists rest, stream = size_cut target acc stream ++ rest.
+Proof.
+  induction stream as [|c stream IH]; intros acc; cbn [size_cut].
+  - exists []. reflexivity.
+  - destruct (target <? acc + t_size (c_tx c)).
+    + exists (c :: stream). reflexivity.
+    + destruct (IH (acc + t_size (c_tx c))) as [rest Hr]. exists rest. cbn [app]. f_equal. exact Hr.
+Qed.
+
+Lemma size_cut_Forall (P : cand -> Prop) target acc stream :
+  Forall P stream -> Forall P (size_cut target acc stream).
+Proof.
+  intros H. destruct (size_cut_prefix target stream acc) as [rest Hr]. rewrite Hr in H.
+  apply Forall_app in H. apply H.
+Qed.
